@@ -15,7 +15,7 @@ import Cirbo.Proofs.ConeReach
 -- OBLIGATION: c04_dont_care_table_defined_where_reached
 -- OBLIGATION: c04_dont_care_table_sound
 -- OBLIGATION: c04_synthesised_cone_slice_agrees
--- PARTIAL: proved: the splice loop, abstractly — ANY finite sequence of accepted improvements (each a replace_subcircuit by a subcircuit that agrees with the cone it replaces on every value combination that occurs; that agreement is what the pattern simulation over all input assignments plus exact synthesis deliver) leaves the circuit well formed, with the same inputs position by position and the same output values on every input assignment (c04_improvement_steps_preserve_function, through the C19 theorem for replace_subcircuit); the pattern primitives of the cone simulation (leaf patterns enumerate all leaf assignments; eval_pattern is the gate's Boolean function bit by bit, for every supported type incl. n-ary gates) and — through C06 — that any cone returned by exact synthesis agrees with the requested table on every entry that is not a don't-care, with exactly size-1 gates of the basis. NOT proved (decided on every run by the search over the real minimize_subcircuits with admissible cut families, all bases and parameter settings, truth-table / interface / size comparison and enable_validation): soundness of the don't-care extraction over reachable leaf vectors, of the trivial-output shortcut, of the splice through replace_subcircuit (modelled and compared in C19), and of the driver loop over node states. The algorithm depends on Python set iteration order; it is not modelled as a whole. One open known finding (dead logic reading an improved cone) is listed in known_findings.json.
+-- PARTIAL: proved: (1) the splice loop, abstractly — ANY finite sequence of accepted improvements (each a replace_subcircuit by a subcircuit that agrees with the cone it replaces on every value combination that occurs) leaves the circuit well formed, with the same inputs position by position and the same output values on every input assignment (c04_improvement_steps_preserve_function, through the C19 theorem for replace_subcircuit); (2) the pattern primitives (leaf patterns enumerate all leaf assignments; eval_pattern is the gate's Boolean function bit by bit, for every supported type incl. n-ary gates); (3) the cone pipeline that produces such improvements, modelled in Model/ConeTable.lean and compared with the code on every cone of every run: the simulation loop of _get_subcircuits gives every leaf and cone gate the pattern whose bit at the row of the leaf vector is the gate's value, for EVERY valuation of the circuit (c04_cone_simulation_computes_the_cone); _eval_dont_cares collects the leaf vector of every valuation (c04_eval_dont_cares_collects_every_leaf_vector, through C01's theorem about the per-gate truth tables); evaluate_truth_table_with_dont_cares is defined exactly at the rows whose assignment string was collected and there carries the output pattern's bit (c04_dont_care_table_defined_where_reached); hence ANY circuit that implements that table — in particular the circuit exact synthesis builds from any satisfying assignment of its encoding (C06) — agrees with the cone on every valuation of the circuit under the identification of inputs and outputs the driver uses, i.e. meets the hypothesis of (1) (c04_dont_care_table_sound, c04_synthesised_cone_slice_agrees: soundness of the don't-care extraction, end to end for one cone). NOT proved (decided on every run by the search over the real minimize_subcircuits with admissible cut families, all bases and parameter settings, truth-table / interface / size comparison and enable_validation): that the cut enumerator's cones are closed under their leaves (a hypothesis of (3), audited on every cone of every run), the selection of cuts (nested-cut removal), the trivial-output shortcut (in-place merging of equal patterns), the relabelling before the splice (_rename_subcircuit_gates) and the driver loop over node states. The algorithm depends on Python set iteration order; the driver is not modelled as a whole.
 -/
 namespace Cirbo
 open Pattern Synth
